@@ -5,6 +5,7 @@
 import MudExec.Proto
 import MudModel.Hop
 import MudModel.Hopping
+import MudModel.Verlet
 
 namespace Mud.Exec
 open Mud
@@ -120,10 +121,24 @@ def opChoice : Op := do
   let u ← flt
   pure [oOptN (choiceIdx u p)]
 
+/-- `verlet n m.. x.. v.. F0.. F1.. dt` → x'.. v'.. kinetic' -/
+def opVerlet : Op := do
+  let n ← nat
+  let m ← vec n
+  let x ← vec n
+  let v ← vec n
+  let f0 ← vec n
+  let f1 ← vec n
+  let dt ← flt
+  let a0 := accel f0 m
+  let x' := advancePosition x v a0 dt
+  let v' := advanceVelocity v a0 (accel f1 m) dt
+  pure (oVec x' ++ oVec v' ++ [oF (kinetic m v')])
+
 def tableA : List (String × Op) :=
   [("expm1", opExpm1), ("pscale", opPScale), ("pscale_pinned", opPScalePinned),
    ("pscalec", opPScaleC), ("pscalec_pinned", opPScalePinnedC),
    ("kinetic", opKinetic), ("hop", opHop), ("hopallowed", opHopAllowed),
-   ("gkndt", opGkndt), ("hopper", opHopper), ("cumseq", opCumSeq), ("choice", opChoice)]
+   ("verlet", opVerlet), ("gkndt", opGkndt), ("hopper", opHopper), ("cumseq", opCumSeq), ("choice", opChoice)]
 
 end Mud.Exec
